@@ -18,7 +18,7 @@ RULE = ("Hypothesis draws an image shape (divisible or not by b), b in 1..6, num
         "pos'/scale' == (pos/scale - (b-1)/2)/b, rotations/features unchanged, parent untouched, binning(1) == copy, "
         "lazy == eager, and for the grid class binned.load(i, n) == blocksum_b(original.load(i, b*n)). "
         "Non-trivial = b >= 2 with a non-divisible shape or an even box.")
-RULE += (" " + 'Also: int8 / uint8 / int16 tomograms and bin sizes given as numpy integers (np.int64, np.uint8).')
+RULE += (" " + 'Also: int8 / uint8 / int16 tomograms and bin sizes given as numpy integers (np.int64, np.uint8). Round 7: float16 tomograms whose block sums leave the half-precision range.')
 TOLERANCES = {"image": "1e-5 relative (float32 block sums)", "positions": "1e-5 px", "subtomogram": "1e-4 relative"}
 ASSUMPTIONS = ["exact-class molecules are identity-oriented and voxel-aligned in both loaders, so no interpolation enters"]
 
